@@ -76,8 +76,7 @@ def export(node):
                 [[name, export(x)] for (name, x) in ast.iter_fields(node)]]
     if isinstance(node, list):
         return ["l", [export(x) for x in node]]
-    # since fix b1d74a8 (findings F17 / F32) the dumped value has the `=` of `_pos=` escaped
-    return ["s", repr(node).replace("_pos=", "_pos\\="), scalar_kind(node)]
+    return ["s", repr(node), scalar_kind(node)]  # raw repr: the escaping of `_pos=` (fix b1d74a8) is in the Lean model
 
 
 def flat_lines(text):
